@@ -4,11 +4,14 @@ import (
 	"bytes"
 	"fmt"
 	"reflect"
+	"strings"
 	"sync"
 
+	"github.com/datastax/go-cassandra-native-protocol/compression/lz4"
 	"github.com/datastax/go-cassandra-native-protocol/datacodec"
 	"github.com/datastax/go-cassandra-native-protocol/datatype"
 	"github.com/datastax/go-cassandra-native-protocol/primitive"
+	"github.com/datastax/go-cassandra-native-protocol/segment"
 
 	"verif/internal/lp"
 )
@@ -41,6 +44,17 @@ func runC18FirstChild(res *lp.Result) {
 	if thorough() {
 		iters = 1500
 	}
+	// codecs nobody has used yet, shared by all goroutines: their first calls — successful ones and FAILING ones (an error message
+	// names the CQL type, which a type object might build on demand) — happen concurrently
+	var freshUdts []datacodec.Codec
+	for k := 0; k < 40; k++ {
+		ut, _ := datatype.NewUserDefined("ks", fmt.Sprintf("t%d", k), []string{"x", "y"}, []datatype.DataType{datatype.Int, datatype.NewList(datatype.Varchar)})
+		if c, err := datacodec.NewUserDefined(ut); err == nil {
+			freshUdts = append(freshUdts, c)
+		}
+	}
+	segCodec := segment.NewCodecWithCompression(lz4.Compressor{})
+	plainSeg := segment.NewCodec()
 	var wg sync.WaitGroup
 	var mu sync.Mutex
 	start := make(chan struct{})
@@ -49,6 +63,40 @@ func runC18FirstChild(res *lp.Result) {
 		go func(g int) {
 			defer wg.Done()
 			<-start
+			// the first segments of this process (checksum tables, if the checksums use any, are built now)
+			for k := 0; k < 20; k++ {
+				payload := []byte(fmt.Sprintf("goroutine %d segment %d %s", g, k, strings.Repeat("z", k*7)))
+				for ci, sc := range []segment.Codec{plainSeg, segCodec} {
+					var b bytes.Buffer
+					err := sc.EncodeSegment(&segment.Segment{Header: &segment.Header{IsSelfContained: k%2 == 0}, Payload: &segment.Payload{UncompressedData: payload}}, &b)
+					var d *segment.Segment
+					if err == nil {
+						d, err = sc.DecodeSegment(bytes.NewReader(b.Bytes()))
+					}
+					if err != nil || !bytes.Equal(d.Payload.UncompressedData, payload) {
+						mu.Lock()
+						res.Add(lp.Finding{Kind: "violation", What: "concurrent first use of a shared segment codec gives a wrong result: " + []string{"none", "lz4"}[ci],
+							Input: fmt.Sprintf("%s; goroutine %d segment %d bytes %x", id, g, k, b.Bytes()), Impl: fmt.Sprint(err)})
+						mu.Unlock()
+					}
+				}
+			}
+			for _, c := range freshUdts {
+				// a failing encode and a failing decode (their results are errors either way), then a successful round trip
+				c.Encode(map[string]interface{}{"x": "not-a-number"}, primitive.ProtocolVersion4)
+				var wrong int
+				c.Decode([]byte{0, 0, 0, 4, 0, 0, 0, 1, 0xff, 0xff, 0xff, 0xff}, &wrong, primitive.ProtocolVersion4)
+				enc, err := c.Encode(map[string]interface{}{"x": int32(g), "y": []string{"a"}}, primitive.ProtocolVersion4)
+				var out map[string]interface{}
+				if err == nil {
+					_, err = c.Decode(enc, &out, primitive.ProtocolVersion4)
+				}
+				if err != nil || fmt.Sprint(reflect.Indirect(reflect.ValueOf(out["x"]))) != fmt.Sprint(g) {
+					mu.Lock()
+					res.Add(lp.Finding{Kind: "violation", What: "concurrent first use of a shared UDT codec gives a wrong result", Input: fmt.Sprintf("%s; goroutine %d", id, g), Impl: fmt.Sprint(err, out)})
+					mu.Unlock()
+				}
+			}
 			for k := 0; k < iters; k++ {
 				// a struct type nobody has used before: the UDT's fields by tag, plus a field that makes the type unique
 				t := reflect.StructOf([]reflect.StructField{
